@@ -17,7 +17,7 @@ What is literal and what is not
 * `anc` (`_ancestors`) recurses over the insertion order instead of looking the
   parent up in the whole dict; `descF` (`descendants`) follows `_loer` with fuel
   `len(_hier)`; a child that is no key of `_loer` is treated as childless there
-  (Python: KeyError) — unreachable by `WF.children_closed`.  Both choices are
+  (Python: KeyError) — unreachable by `parents_children_closed` (Props).  Both choices are
   justified by the invariant `WF` (Props) and tied to the code by the correspondence run.
 -/
 namespace Verif.C17
